@@ -585,9 +585,10 @@ PROPS["C01"] = dict(
           "StatefulEncoder::encode_primitive_element and read back by the real StatefulDecoder (decode_header + read_value / "
           "read_value_preserved) in Explicit VR LE, Explicit VR BE and (standard attributes of the matching VR) Implicit VR LE gives the same "
           "tag, VR and an equal value — numbers of every width and sign / bit pattern (0-3 items, NaN payloads), bytes, tags with group != "
-          "element, partial dates / times / date-times (1-2 items), single and multi-valued ASCII text, numbers written under DS / IS — up "
+          "element, partial dates / times / date-times (1-2 items), single and multi-valued ASCII text (a backslash inside LT / ST / UT / UR stays "
+          "part of ONE value under both reading strategies; empty middle values, leading spaces), numbers written under DS / IS — up "
           "to the documented normalisations, and the reader's position ends exactly at the end of the element",
-          bound="987 elements x 2 reading modes: 3 transfer syntaxes x the value shapes listed (native enumeration of the compiled code; "
+          bound="1289 cases: 3 transfer syntaxes x the value shapes listed x 2 reading strategies (native enumeration of the compiled code; "
                 "not a deductive result)",
           fns=[("parser/src/stateful/decode.rs", "read_value_tag"), ("parser/src/stateful/decode.rs", "read_value_da"),
                ("parser/src/stateful/encode.rs", "encode_primitive_element")]),
@@ -742,7 +743,7 @@ PROPS["C09"] = dict(
           "--manifest-path /verif/witness/Cargo.toml --bin c09_written_length 2>&1 | grep -E '^(WITNESS|EXHAUSTIVE|SKIPPED|error)' | tail -220",
           "tables built by the real builder, written by the real FileMetaTable::write and read back by from_reader: recorded group length == "
           "bytes that follow the group length element == table.information_group_length, and the table read back is equal",
-          bound="1458 tables: every presence combination of the optional attributes (incl. private information with and without a creator UID) with even- and odd-length values (native enumeration; survives "
+          bound="3402 tables: every presence combination of the optional attributes (incl. private information with and without a creator UID) with even- and odd-length values, private information also binary (bytes above 0x7F, NUL, empty, all 256 byte values) (native enumeration; survives "
                 "restructurings of the computation that the extraction cannot follow; not a deductive result)",
           fns=[("object/src/meta.rs", "calculate_information_group_length"), ("object/src/meta.rs", "write", r"impl\s+FileMetaTable")]),
         N("C09.preamble", _WR % "c09_preamble",
@@ -975,8 +976,10 @@ PROPS["C27"] = dict(
           "cp /repo/Cargo.lock /verif/witness/Cargo.lock && CARGO_TARGET_DIR=/verif/build/witness cargo run --offline -q --release "
           "--manifest-path /verif/witness/Cargo.toml --bin c27_segmentations 2>&1 | grep -E '^(WITNESS|EXHAUSTIVE|SKIPPED|error)' | tail -220",
           "a fixed stream of three PDUs (A-RELEASE-RQ, P-DATA, A-ABORT) handed to the real read_pdu_from_wire in EVERY segmentation with at most "
-          "three cut points: successive receives return exactly the three PDUs in order, then end of stream, nothing left over",
-          bound="7807 segmentations of one 37-byte stream (native enumeration of the compiled code, incl. the real BufReader and read_pdu; not a deductive result)",
+          "three cut points: successive receives return exactly the three PDUs in order, then end of stream, nothing left over; the same "
+          "segmentations through the asynchronous read_pdu_from_wire_async from a transport that answers Pending before every segment",
+          bound="15 614 cases: 7807 segmentations of one 37-byte stream x (synchronous, asynchronous receiver) (native enumeration of the compiled "
+                "code, incl. the real BufReader and read_pdu; not a deductive result)",
           fns=[("ul/src/association/mod.rs", "read_pdu_from_wire")]),
     ],
     assumptions=[
